@@ -135,6 +135,12 @@ def resolve_refs(op, model):
         r["prefixes"] = model.we_prefixes(weid)
         if op.get("partial") and len(r["prefixes"]) > 1:
             r["prefixes"] = [dec(op["ref"])]
+        if op.get("extra"):
+            # a prefix that is not this webentity's, placed after valid ones
+            x = dec(op["extra"])
+            if model.pref.get(x) != weid:
+                pos = op.get("extra_pos", len(r["prefixes"]))
+                r["prefixes"] = r["prefixes"][:pos] + [x] + r["prefixes"][pos:]
     elif k == "add_prefix":
         weid = model.pref.get(dec(op["ref"]))
         if weid is None:
@@ -168,6 +174,19 @@ def resolve_refs(op, model):
     return r
 
 
+def drive_until_done(gen):
+    """The way a cooperative caller (Hyphe's core) consumes an iterator
+    request: advance it until the state says done, take the result, and drop
+    the generator without resuming it any further."""
+    result = None
+    for state in gen:
+        if state.done:
+            result = state.result
+            break
+    gen.close()
+    return result
+
+
 def exec_sut(sut, op, refs, model):
     """Run one write/restart op on the real index; returns canonical outcome.
     Only TraphException counts as a refusal; anything else propagates."""
@@ -186,6 +205,8 @@ def exec_sut(sut, op, refs, model):
             data = {}
             for s, ts in op["data"]:
                 data[arg(s)] = [arg(x) for x in ts]
+            if op.get("drive") == "until_done":
+                return canon_report(drive_until_done(t.index_batch_crawl_iter(data, op.get("yf", 50))))
             return canon_report(t.index_batch_crawl(data, yield_frequency=op.get("yf", 50)))
         if k == "create_we":
             return canon_report(t.create_webentity([arg(p) for p in op["prefixes"]]))
@@ -198,6 +219,8 @@ def exec_sut(sut, op, refs, model):
         if k == "move_prefix":
             return ("ok", t.move_prefix_to_webentity(arg(op["prefix"]), refs["target"], refs["source"]))
         if k == "add_rule":
+            if op.get("drive") == "until_done":
+                return canon_report(drive_until_done(t.add_webentity_creation_rule_iter(arg(op["anchor"]), lrugen.RULES[op["rule"]])))
             return canon_report(t.add_webentity_creation_rule(arg(op["anchor"]), lrugen.RULES[op["rule"]]))
         if k == "remove_rule":
             return ("ok", t.remove_webentity_creation_rule(arg(op["anchor"])))
